@@ -186,6 +186,37 @@ def b_flag(ctx, flows):
                     source_expr=lambda e: isinstance(e, ast.Subscript) and isinstance(e.slice, ast.Constant) and e.slice.value == "additional_info")
         tainted_here = sorted(tnt.state_in[wn])
         ok2 = not tainted_here
+        # positive provenance: the text uttered on this path comes from the predefined messages only
+        from ..pyflow import ReachingDefs
+        rd = ReachingDefs(cfg)
+        uv = None
+        for c in walk_no_nested(fn):
+            if isinstance(c, ast.Call) and src(c.func) == "new_event_dict" and c.args and isinstance(c.args[0], ast.Constant) and c.args[0].value == "BotMessage":
+                for k in c.keywords:
+                    if k.arg == "text" and isinstance(k.value, ast.Name) and wn in cfg.reachable([cfg.entry]) and cfg.node_of(c) in cfg.reachable([wn]):
+                        uv = k.value.id
+        ok3, prov = False, "the uttered variable was not found"
+        if uv is not None:
+            terminals = []
+            seen_defs = set()
+            work = list(rd.reaching(wn, uv))
+            while work:
+                dnode = work.pop()
+                if dnode in seen_defs or dnode is cfg.entry:
+                    continue
+                seen_defs.add(dnode)
+                val = [v for k, v in rd.gen[dnode] if k == uv]
+                v = val[0] if val else None
+                if v is not None and any(isinstance(n, ast.Name) and n.id == uv for n in ast.walk(v)):
+                    work += list(rd.reaching(dnode, uv))   # e.g. bot_utterance = self._render_string(bot_utterance, context)
+                else:
+                    terminals.append(v)
+            ok3 = bool(terminals) and all(v is not None and "bot_messages" in src(v) for v in terminals)
+            prov = "`%s` at the write derives from %s" % (uv, [first_line(v, 50) if v is not None else None for v in terminals])
+        ctx.check("C02.b.flag-provenance", rel, q, first_line(cfg.node_of(node).ast), ok3,
+                  "the skip flag is set only where the uttered text comes from the predefined bot messages (%s)" % prov if ok3 else
+                  "the skip flag is set on a path where the uttered text is NOT taken from the predefined bot messages (%s): text produced elsewhere (e.g. by an LLM inside a custom action and uttered via `bot $var`) bypasses the output rails" % prov,
+                  line=node.lineno)
         ctx.check("C02.b.flag-writer", rel, q, first_line(cfg.node_of(node).ast), ok1 and ok2,
                   "the write of the skip flag lies on a path that no LLM call reaches and where no LLM-derived value is live (llm-call nodes in function: %d, reaching the write: %s, tainted variables at the write: %s)" % (
                       len(llm_nodes), not ok1, tainted_here), line=node.lineno)
